@@ -306,7 +306,7 @@ class Job:
         # creates directories for checkpoints)
         import posixpath
 
-        d = posixpath.dirname(posixpath.normpath(sc["csv"]))
+        d = posixpath.dirname(posixpath.normpath(sc["csv"])) if sc["csv"] else ""
         while d.startswith(ROOT) and d not in self.fs.dirs:
             self.fs.dirs.add(d)
             d = posixpath.dirname(d)
